@@ -38,21 +38,72 @@ for n in sorted(os.listdir(sd)):
         sdirs.append(os.path.join(sd, n))
 with cf.ThreadPoolExecutor(max_workers=4) as ex:
     sres = list(ex.map(seeded_one, sdirs))
+# the other direction: behaviour-preserving variants (benign/) must NOT make this property's check fail
+import hashlib
+def tree_key():
+    h = hashlib.sha256()
+    for root, dirs, files in os.walk(repo):
+        dirs[:] = sorted(x for x in dirs if x != ".git")
+        for f in sorted(files):
+            if f.endswith(".go") or f in ("go.mod", "go.sum"):
+                fp = os.path.join(root, f)
+                h.update(fp.encode()); h.update(open(fp, "rb").read())
+    for f in ("bin/kpverify", "known_findings.json"):
+        st = os.stat(os.path.join(V, f)); h.update(("%s:%d:%d" % (f, st.st_size, int(st.st_mtime))).encode())
+    return h.hexdigest()[:24]
+TREE = tree_key()
+CACHE = os.path.join(V, ".cache", "benign")
+os.makedirs(CACHE, exist_ok=True)
+def benign_one(d):
+    # one analysis of the variant decides all 20 properties; the verdicts are cached under a key made of the analysed
+    # tree's sources, the analyzer binary, the findings file and the variant itself (so nothing stale is ever reused)
+    key = hashlib.sha256((TREE + open(os.path.join(d, "patch.diff")).read()).encode()).hexdigest()[:32]
+    cp = os.path.join(CACHE, key + ".json")
+    if os.path.exists(cp):
+        try:
+            return {"id": os.path.basename(d), "status": json.load(open(cp)).get(prop, "silent")}
+        except Exception:
+            pass
+    tmp = tempfile.mkdtemp(prefix="kpben_")
+    try:
+        dst = os.path.join(tmp, "repo")
+        shutil.copytree(repo, dst, ignore=shutil.ignore_patterns(".git"))
+        a = subprocess.run(["git", "apply", "--directory", "repo", os.path.join(d, "patch.diff")], cwd=tmp, capture_output=True, text=True)
+        if a.returncode != 0:
+            return {"id": os.path.basename(d), "status": "skipped"}
+        os.makedirs(tmp + "/verif"); shutil.copy(os.path.join(V, "known_findings.json"), tmp + "/verif/")
+        x = subprocess.run([os.path.join(V, "bin", "kpverify"), "-repo", dst, "-property", "all"], capture_output=True, text=True, env=dict(os.environ, VERIF_DIR=tmp + "/verif"))
+        import re as _re
+        alarms = set(_re.findall(r"^VIOLATION property=(C\d+)", x.stdout, _re.M))
+        if "ERROR" in x.stdout and not alarms and x.returncode != 0:
+            return {"id": os.path.basename(d), "status": "skipped"}
+        verdicts = {("C%02d" % i): ("ALARM" if ("C%02d" % i) in alarms else "silent") for i in range(1, 21)}
+        tmpf = cp + ".%d" % os.getpid()
+        json.dump(verdicts, open(tmpf, "w")); os.replace(tmpf, cp)
+        return {"id": os.path.basename(d), "status": verdicts.get(prop, "silent")}
+    finally:
+        shutil.rmtree(tmp, ignore_errors=True)
+bd = os.path.join(V, "benign")
+bdirs = [os.path.join(bd, n) for n in sorted(os.listdir(bd)) if os.path.exists(os.path.join(bd, n, "patch.diff"))] if os.path.isdir(bd) else []
+with cf.ThreadPoolExecutor(max_workers=8) as ex:
+    bres = list(ex.map(benign_one, bdirs))
 summ = {
+    "benign_variants": len(bres), "benign_silent": sum(x["status"] == "silent" for x in bres),
+    "benign_alarms": [x["id"] for x in bres if x["status"] == "ALARM"], "benign_skipped": [x["id"] for x in bres if x["status"] == "skipped"],
     "mutants": len(mres), "mutants_caught": sum(x["status"] == "caught" for x in mres),
     "mutants_not_caught": [x["id"] + ":" + x["status"] for x in mres if x["status"] != "caught"],
     "seeded_changes": len(sres), "seeded_caught": sum(x["status"] == "caught" for x in sres),
     "seeded_not_caught": [x["id"] + ":" + x["status"] for x in sres if x["status"] != "caught"],
-    "note": "each variant is a scratch copy of the analysed tree with one edit (mutants) or one stored independent change (seeded); it must make this property's check exit 1 naming the construct; variants are analysed, never executed",
+    "note": "each variant is a scratch copy of the analysed tree with one edit (mutants) or one stored independent change (seeded); it must make this property's check exit 1 naming the construct; each benign variant (a behaviour-preserving change produced independently) must leave the check at exit 0; variants are analysed, never executed",
 }
 ev_path = os.path.join(V, "evidence", prop + ".json")
 try:
     ev = json.load(open(ev_path))
     ev["coverage"]["checker_two_way_test"] = summ
-    ev["coverage"]["evaluations"] = ev["coverage"].get("evaluations", 0) + len(mres) + len(sres)
+    ev["coverage"]["evaluations"] = ev["coverage"].get("evaluations", 0) + len(mres) + len(sres) + len(bres)
     ev["wall_s"] = time.time() - t0
     json.dump(ev, open(ev_path, "w"), indent=1)
 except Exception as e:
     print("ERROR updating evidence:", e); verdict = verdict or 1
-print("%s thorough two-way test: mutants %d/%d caught, seeded %d/%d caught %s" % (prop, summ["mutants_caught"], summ["mutants"], summ["seeded_caught"], summ["seeded_changes"], summ["mutants_not_caught"] + summ["seeded_not_caught"]))
+print("%s thorough two-way test: mutants %d/%d caught, seeded %d/%d caught %s; benign %d/%d silent %s" % (prop, summ["mutants_caught"], summ["mutants"], summ["seeded_caught"], summ["seeded_changes"], summ["mutants_not_caught"] + summ["seeded_not_caught"], summ["benign_silent"], summ["benign_variants"], summ["benign_alarms"]))
 sys.exit(verdict)
